@@ -401,6 +401,7 @@ DEFAULTS = {
 }
 for _cid in PROPS:
     PROPS[_cid].setdefault('scans', []).append(dict(kind='structure'))
+    PROPS[_cid]['scans'].append(dict(kind='interface'))
     if any(_cid in v[1] for v in DEFAULTS.values()):
         PROPS[_cid]['scans'].append(dict(kind='defaults', table=DEFAULTS))
 
@@ -427,7 +428,9 @@ DEPS = {
     # collectors are systems: their constructors must hand the declared window on to System.__init__; "exactly once" must
     # survive systems that edit the system set mid-timestep (the general user-code view)
     # the order must also hold when systems edit the system set mid-timestep (dynamic view)
-    'C01': ['Core.System.clean_up', 'Core.SystemManager.execute_systems#dynamic'],
+    # ... and collectors queue by the priority their constructors hand on (default -1: after the default systems)
+    'C01': ['Core.System.clean_up', 'Core.SystemManager.execute_systems#dynamic', 'Collectors.Collector.__init__',
+            'Collectors.AgentCollector.__init__', 'Collectors.FileCollector.__init__'],
     'C02': SCHED + ['Core.Environment.__init__', 'Collectors.Collector.__init__', 'Collectors.AgentCollector.__init__',
                     'Collectors.FileCollector.__init__', 'Core.SystemManager.execute_systems#dynamic'],
     'C04': ['Core.SystemManager.register_component', 'Core.SystemManager.deregister_component',
